@@ -375,8 +375,77 @@ func c14Panics(c *Check) {
 }
 
 // C15 — recovery edges (necessary conditions for convergence).
+// needAppendFormula: a MsgStorageAppend is requested exactly when there is something to persist or
+// a delayed message to release. Dropping the last disjunct loses responses whose Ready changed no
+// durable state (pre-vote grants, acknowledgements that free a stuck higher-term node): acceptReady
+// clears the queue regardless.
+func needAppendFormula(c *Check, rule string) {
+	p := c.P
+	need := p.Func("raft", "needStorageAppendMsg")
+	isEmptySnap := p.Func("raft", "IsEmptySnap")
+	isEmptyHS := p.Func("raft", "IsEmptyHardState")
+	rdEntries := p.Field("raft", "Ready", "Entries")
+	rdSnap := p.Field("raft", "Ready", "Snapshot")
+	rdHS := p.Field("raft", "Ready", "HardState")
+	afterF := p.Field("raft", "raft", "msgsAfterAppend")
+	if need == nil || isEmptySnap == nil || isEmptyHS == nil || rdEntries == nil || afterF == nil {
+		return
+	}
+	fi := p.Info(need)
+	r, rd := fi.Sym(need.Params[0]), fi.Sym(need.Params[1])
+	ln := func(x *Sym) *Sym { return &Sym{K: KBuiltin, Name: "len", Args: []*Sym{x}} }
+	spec := bfOr(
+		bfCmp(ln(FieldOf(rd, rdEntries)), ">", constSym(0)),
+		bfNot(bfSym(CallSym(isEmptyHS, FieldOf(rd, rdHS)))),
+		bfNot(bfSym(CallSym(isEmptySnap, FieldOf(rd, rdSnap)))),
+		bfCmp(ln(FieldOf(r, afterF)), ">", constSym(0)))
+	code := p.ReturnFormula(need)
+	if code == nil {
+		c.Undecided(rule, "needStorageAppendMsg", fnName(need), p.Pos(need.Pos()), "entries || hard state || snapshot || delayed messages", "function too complex to summarise")
+		return
+	}
+	ok, why := bfEquiv(code, spec)
+	c.Result(ok, rule, "needStorageAppendMsg", fnName(need), p.Pos(need.Pos()), "len(rd.Entries) > 0 || !IsEmptyHardState(rd.HardState) || !IsEmptySnap(rd.Snapshot) || len(r.msgsAfterAppend) > 0", shorten(why, 300))
+}
+
+// applyBudgetReturned — C15.B: every acknowledgement of applied entries gives their bytes back
+// and re-evaluates the pause flag, on every path of raftLog.appliedTo (otherwise a late
+// acknowledgement that does not advance the cursor leaves the node paused for ever).
+func applyBudgetReturned(c *Check) {
+	p := c.P
+	appliedTo := p.Method("raft", "raftLog", "appliedTo")
+	sizeF := p.Field("raft", "raftLog", "applyingEntsSize")
+	pausedF := p.Field("raft", "raftLog", "applyingEntsPaused")
+	if appliedTo == nil || sizeF == nil || pausedF == nil {
+		return
+	}
+	fi := p.Info(appliedTo)
+	for _, f := range []*types.Var{sizeF, pausedF} {
+		blocks := map[int]bool{}
+		for _, st := range p.StoresTo(f) {
+			if st.Fn == appliedTo && !st.Whole && fi.Live(st.Instr) {
+				blocks[st.Instr.Block().Index] = true
+			}
+		}
+		ok := len(blocks) > 0
+		seen := fi.ReachableFrom([]int{0}, func(b int) bool { return blocks[b] })
+		for b := range seen {
+			if blocks[b] || fi.Cut[b] >= 0 {
+				continue
+			}
+			ins := fi.Fn.Blocks[b].Instrs
+			if _, isRet := ins[len(ins)-1].(*ssa.Return); isRet {
+				ok = false
+			}
+		}
+		c.Result(ok, "C15.B", "appliedTo updates "+f.Name(), fnName(appliedTo), p.Pos(appliedTo.Pos()), "every returning path stores "+f.Name()+" (the budget is released and the pause flag re-evaluated on every acknowledgement)", fmt.Sprint(len(blocks), " store block(s)"))
+	}
+}
+
 func c15Recovery(c *Check) {
 	p := c.P
+	needAppendFormula(c, "C15.W")
+	applyBudgetReturned(c)
 	stepLeader := p.Func("raft", "stepLeader")
 	getType := p.Method("raftpb", "Message", "GetType")
 	pausedF := p.Field("tracker", "Progress", "MsgAppFlowPaused")
